@@ -237,3 +237,40 @@ lemma bytesInjective [C06,C08]: forall a Int, b Int :: 0 <= a && a < 4294967296 
 // the fragment computed for a (small) negative number is that of a non-negative epoch at least 128
 lemma fbeNegative [C08]: forall e Int :: 0 - 254 <= e && e < 0 ==> fbe(e) == be4(e >= 0 - 128 ? 256 + e : 65536 + e) && (e >= 0 - 128 ? 256 + e : 65536 + e) >= 128
 @*/
+
+/*@
+module authz
+props C03 C16
+use common core
+dialect neovm
+// Authorisation table (C03): one line per exported method with the witness its documentation requires.
+// Checked by the zero-annotation sweep: on every normal exit that changed state (storage write,
+// notification, state-changing call) the formula holds; `safe` methods never change state.
+// alphabet() = 2/3+1 multisig of the chain committee, cmtaddr() = its majority multisig.
+
+witness Update [C03,C16]          : W(cmtaddr())
+witness AddPeerIR [C03]           : W(alphabet())
+witness DeleteNode [C03]          : W(alphabet())
+witness UpdateStateIR [C03]       : W(alphabet())
+witness NewEpoch [C03]            : W(alphabet())
+witness UpdateSnapshotCount [C03] : W(alphabet())
+witness SetConfig [C03]           : W(alphabet())
+witness SubscribeForNewEpoch [C03]: W(alphabet())
+// requests made by a node itself need the node's own witness and the Alphabet's
+witness AddPeer [C03,C07]         : W(nodeInfo[2:35]) && W(alphabet())
+witness AddNode [C03,C07]         : W(n.Key) && W(alphabet())
+witness UpdateState [C03,C07]     : W(publicKey) && W(alphabet())
+safe InnerRingList [C03]
+safe Epoch [C03]
+safe LastEpochBlock [C03]
+safe Netmap [C03]
+safe NetmapCandidates [C03]
+safe ListNodes [C03]
+safe ListNodesEpoch [C03]
+safe ListCandidates [C03]
+safe Snapshot [C03]
+safe SnapshotByEpoch [C03]
+safe Config [C03]
+safe ListConfig [C03]
+safe Version [C03]
+@*/
